@@ -505,9 +505,17 @@ class SymArray(np.ndarray):
 
     def _masked_assign(self, mask, value):
         mask = _obj(mask)
+        tgt = self.view(np.ndarray)
+        if mask.ndim < self.ndim and mask.shape == self.shape[: mask.ndim] and not isinstance(value, MaskedSelection):
+            # rows selected by a symbolic mask receive the same value (broadcast over the trailing axes): a[mask] = v
+            tail = self.shape[mask.ndim:]
+            val = np.broadcast_to(np.asarray(_obj(value) if isinstance(value, np.ndarray) else value, dtype=object), tail)
+            for idx in np.ndindex(mask.shape):
+                for t in np.ndindex(tail):
+                    tgt[idx + t] = sym_if(mask[idx], val[t], tgt[idx + t]) if not isinstance(mask[idx], (bool, np.bool_)) else (val[t] if mask[idx] else tgt[idx + t])
+            return
         if mask.shape != self.shape:
             raise Unsupported("symbolic boolean mask of a different shape")
-        tgt = self.view(np.ndarray)
         if isinstance(value, MaskedSelection):
             if value.mask is not mask and not _same_mask(value.mask, mask):
                 raise Unsupported("masked assignment from a selection made with a different mask")
@@ -517,6 +525,15 @@ class SymArray(np.ndarray):
             return
         if isinstance(value, np.ndarray) and value.ndim > 0:
             raise Unsupported("masked assignment of an array under a symbolic mask")
+        if isinstance(value, (float, np.floating)) and np.isinf(value) and value > 0:
+            # `a[a == 0] = np.inf` (used to make a later division yield 0): the reals have no infinity, keep the guard
+            for idx in np.ndindex(self.shape):
+                m = mask[idx]
+                if isinstance(m, (bool, np.bool_)):
+                    tgt[idx] = value if m else tgt[idx]
+                else:
+                    tgt[idx] = InfOr(m, tgt[idx])
+            return
         for idx in np.ndindex(self.shape):
             tgt[idx] = sym_if(mask[idx], value, tgt[idx])
 
@@ -542,6 +559,21 @@ def _same_mask(a, b):
         if not z3.eq(ex, ey):
             return False
     return True
+
+
+class InfOr:
+    """If(cond, +inf, finite): only usable as a divisor (x / InfOr = If(cond, 0, x / finite))"""
+
+    __array_ufunc__ = None
+
+    def __init__(self, cond, finite):
+        self.cond, self.finite = cond, finite
+
+    def __rtruediv__(self, x):
+        return sym_if(self.cond, 0, x / self.finite)
+
+    def __repr__(self):
+        return f"InfOr({self.cond!r}, {self.finite!r})"
 
 
 class MaskedSelection:
